@@ -132,7 +132,8 @@ inline void well_items(const Opm::Well& w, const Opm::SummaryState& st, Sweep& o
         o.N(C + "rw", "conn.rw:" + kind, c.rw());
         o.N(C + "depth", "conn.depth:" + kind, c.depth());
         o.N(C + "skin", "conn.skin:" + kind, c.skinFactor());
-        o.N(C + "wpimult", "conn.wpimult:" + kind, c.wpimult());
+        // Connection::wpimult() (accumulated WPIMULT factor) is bookkeeping: CF() above already carries the multiplier,
+        // and the file stores the effective CF only -> not part of the list
         if (c.attachedToSegment() && c.perf_range()) { o.N(C + "perf0", "conn.perf_range:" + kind, c.perf_range()->first); o.N(C + "perf1", "conn.perf_range:" + kind, c.perf_range()->second); }
     }
     if (w.isMultiSegment()) {
@@ -150,6 +151,30 @@ inline void well_items(const Opm::Well& w, const Opm::SummaryState& st, Sweep& o
             o.N(S + "area", "seg.area:" + kind, s.crossArea(), Prec::DBL);
             o.N(S + "volume", "seg.volume:" + kind, s.volume(), Prec::DBL);
             o.I(S + "type", "seg.type:" + kind, (int)s.segmentType());
+            if (s.isValve()) {
+                const auto& v = s.valve();
+                o.N(S + "valve.Cv", "seg.valve.flow_coeff:" + kind, v.conFlowCoefficient(), Prec::DBL);
+                o.N(S + "valve.Ac", "seg.valve.area:" + kind, v.conCrossArea(), Prec::DBL);
+                o.N(S + "valve.Amax", "seg.valve.max_area:" + kind, v.conMaxCrossArea(), Prec::DBL);
+                o.N(S + "valve.L", "seg.valve.add_length:" + kind, v.pipeAdditionalLength(), Prec::DBL);
+                o.N(S + "valve.D", "seg.valve.pipe_diameter:" + kind, v.pipeDiameter(), Prec::DBL);
+                o.N(S + "valve.R", "seg.valve.pipe_roughness:" + kind, v.pipeRoughness(), Prec::DBL);
+                o.N(S + "valve.A", "seg.valve.pipe_area:" + kind, v.pipeCrossArea(), Prec::DBL);
+                o.I(S + "valve.status", "seg.valve.status:" + kind, (int)v.status());
+            }
+            if (s.isSpiralICD()) {
+                const auto& v = s.spiralICD();
+                o.N(S + "sicd.strength", "seg.sicd.strength:" + kind, v.strength(), Prec::DBL);
+                o.N(S + "sicd.length", "seg.sicd.length:" + kind, v.length(), Prec::DBL);
+                o.N(S + "sicd.rho", "seg.sicd.density_cal:" + kind, v.densityCalibration(), Prec::DBL);
+                o.N(S + "sicd.mu", "seg.sicd.viscosity_cal:" + kind, v.viscosityCalibration(), Prec::DBL);
+                o.N(S + "sicd.crit", "seg.sicd.critical:" + kind, v.criticalValue(), Prec::DBL);
+                o.N(S + "sicd.width", "seg.sicd.transition_width:" + kind, v.widthTransitionRegion(), Prec::DBL);
+                o.N(S + "sicd.maxvisc", "seg.sicd.max_visc_ratio:" + kind, v.maxViscosityRatio(), Prec::DBL);
+                o.I(S + "sicd.method", "seg.sicd.scaling_method:" + kind, v.methodFlowScaling());
+                if (v.maxAbsoluteRate()) o.N(S + "sicd.maxrate", "seg.sicd.max_rate:" + kind, *v.maxAbsoluteRate(), Prec::DBL); else o.S(S + "sicd.maxrate", "seg.sicd.max_rate:" + kind, "-");
+                o.I(S + "sicd.status", "seg.sicd.status:" + kind, (int)v.status());
+            }
         }
     }
 }
